@@ -106,10 +106,17 @@ def check(tier, seed, replay=None):
             if extra == ["--style=pretty"]:
                 extra = ["--output-style=text", "--style=pretty"]
             mode = rnd.choice(["normal", "normal", "normal", "closed", "full"])
+            # rows that do not end in a new line stay in the line-buffered standard output until the process ends
+            sep = rnd.choice([[], [], ["--row-seperator=,"], ["--row-seperator= ; "]])
+            pipeline = pipeline + sep
             plans.append({"policy": policy, "argv": ["--on-error=" + policy] + pipeline + extra, "stdin": hexs(noisy), "regions": regions, "invalid": invalid,
                           "mode": mode, "nvals": len(vals)})
         for policy in ("ignore", "panic", "stderr", "stdout"):
             plans.append({"policy": policy, "argv": ["--on-error=" + policy], "stdin": "", "regions": 0, "invalid": False, "mode": "stdin-dir", "nvals": 0})
+        for mode in ("normal", "closed", "full"):
+            for argv in (["--row-seperator=,"], ["--row-seperator=,", "--merge"], ["--row-seperator=", "--output-style=text"]):
+                plans.append({"policy": "ignore", "argv": ["--on-error=ignore"] + argv, "stdin": hexs(b'{"a":1} 2'), "regions": 0, "invalid": False,
+                              "mode": mode, "nvals": 2})
         # all-garbage inputs on an unwritable stdout under --on-error=stdout (the diagnostics are the only output)
         for mode in ("closed", "full"):
             plans.append({"policy": "stdout", "argv": ["--on-error=stdout"], "stdin": hexs(b"} ] : x\n"), "regions": 1, "invalid": False, "mode": mode, "nvals": 0})
